@@ -666,7 +666,9 @@ func c11Scenarios(thorough bool) []*scenario {
 	re := add("ta/restart/recreate-live/G2-B500", polTA, machine16(), std, pods(tG2, tB500), menu{start: true, stop: true, restart: true, recreateLive: true})
 	re.maxInc = 2
 	rb := add("bl/restart/recreate-live", polBalloons, machine8(), []cfgSpec{blCfg("dyn", defs)}, blp[:2], menu{start: true, stop: true, restart: true, recreateLive: true})
-	rb.maxInc = 2
+	// one extra live incarnation only: on this 8-CPU machine three 2-CPU incarnations plus the second container exceed what
+	// the machine can hold, and a runtime truth the plugin could never have admitted is not one the property speaks about
+	rb.maxInc = 1
 	add("bl/restart/truth", polBalloons, machine8(), []cfgSpec{blCfg("dyn", defs)}, blp, rt)
 	add("bl/restart/cuts", polBalloons, machine8(), []cfgSpec{blCfg("dyn", defs)}, blp, cut)
 	return out
